@@ -92,7 +92,18 @@ def compare(drv, sess, name="x", want_lines=False):
             diffs.append({"kind": "eof", "endpoint": side, "real": re_["eof"].get(side), "model": me["eof"].get(side)})
     if re_["hs"] is not None and me["hs"] is not None and re_["hs"] != me["hs"]:
         diffs.append({"kind": "handshake", "real": re_["hs"], "model": me["hs"]})
-    res = {"ok": not diffs, "diffs": diffs, "lines": len(lines), "tx": {k: len(v) for k, v in real.items()},
+    # the state the end-to-end theorems start from (`Nx.L1.establishedB`, both directions, every substream), evaluated on the two MODEL
+    # endpoints at the instant the real client's handshake() returned (only when no application call and no third-party datagram came
+    # before): with the byte- and tick-exact agreement above this ties `Established` - the hypothesis of C01_system_established /
+    # C01_duplex_established - to every real handshake the L1 replays see
+    probes = [o for (_, o) in other.get("probe", [])]
+    hostile = any(e[0] == "inject" for e in sess.netlog)
+    if not diffs and not hostile and re_["hs"]:
+        for o in probes:
+            if not o.startswith("est ") or o == "est -" or any(not w.endswith(":11") for w in o.split(" ")[1:]):
+                diffs.append({"kind": "established", "model": o,
+                              "meaning": "after this handshake the two model endpoints are not in the state the C01 system theorems start from (per substream: client->server, server->client)"})
+    res = {"ok": not diffs, "diffs": diffs, "lines": len(lines), "tx": {k: len(v) for k, v in real.items()}, "est": probes,
            "events": {"deliver": sum(len(v) for v in re_["deliver"].values()), "eof": len(re_["eof"]), "hs": re_["hs"]}}
     if want_lines:
         res["trace"] = list(zip(lines, outs))
